@@ -14,6 +14,7 @@ import (
 	"go/types"
 	"sort"
 	"strings"
+	"sync"
 	"time"
 
 	"golang.org/x/tools/go/ssa"
@@ -96,6 +97,7 @@ func (x *Exec) verifyFunction() {
 		x.fail("no body")
 	}
 	x.analyzeEscapes()
+	x.registerFuncTypes()
 	x.analyzeLoops()
 	st := &State{heap: HeapView{}, entry: HeapView{}}
 	st.wm = Var("WM0", SInt)
@@ -126,8 +128,6 @@ func (x *Exec) verifyFunction() {
 	x.run(st)
 }
 
-
-
 func (x *Exec) contractEnv(st *State, results []SV, old HeapView) *CEnv {
 	env := &CEnv{x: x, vars: map[string]SV{}, cur: st.heap, old: old, qn: &x.qn, wmOld: st.entryWM, wmCur: st.wm}
 	for k, v := range x.params {
@@ -153,6 +153,26 @@ func (x *Exec) contractEnv(st *State, results []SV, old HeapView) *CEnv {
 func (x *Exec) addCover(st *State, what string) {
 	x.covers = append(x.covers, &Obligation{Name: x.name + "/cover:" + what, Assumes: append([]*Term(nil), st.assumes...)})
 }
+
+// registerFuncTypes makes the heap keys of every type the function touches known
+// (function-local named types are not in the package scope).
+func (x *Exec) registerFuncTypes() {
+	keyMu.Lock()
+	defer keyMu.Unlock()
+	seen := map[types.Type]bool{}
+	for _, b := range x.fn.Blocks {
+		for _, in := range b.Instrs {
+			if v, ok := in.(ssa.Value); ok && v.Type() != nil {
+				func() {
+					defer func() { recover() }()
+					x.prog.registerFieldType(v.Type(), seen)
+				}()
+			}
+		}
+	}
+}
+
+var keyMu sync.Mutex
 
 // ---- escape analysis for local Allocs ----
 
@@ -485,7 +505,10 @@ func (x *Exec) callMods(c *ssa.CallCommon, li *loopInfo, seen map[*ssa.Function]
 			callee = mc.Fn.(*ssa.Function)
 		}
 	}
-	if callee == nil {
+	if callee == nil || (c.StaticCallee() == nil && x.prog.contracts.Callbacks[sigString(c.Value.Type())] != "") {
+		if !c.IsInvoke() && x.prog.contracts.Callbacks[sigString(c.Value.Type())] != "" {
+			return // callback contract: no writes to library-owned memory
+		}
 		// dynamic call: governed by callback contracts; conservatively everything
 		if ext := x.prog.dynamicCallMods(c); ext != nil {
 			for _, k := range ext {
@@ -792,7 +815,10 @@ func (x *Exec) havocLoop(st *State, li *loopInfo) {
 
 // sortOfKey derives the sort of a heap key from its shape.
 func (x *Exec) sortOfKey(k string) Sort {
-	if s, ok := x.prog.keySorts[k]; ok {
+	keyMu.Lock()
+	s, ok := x.prog.keySorts[k]
+	keyMu.Unlock()
+	if ok {
 		return s
 	}
 	x.fail("unknown sort for heap key %s", k)
